@@ -201,7 +201,12 @@ Fixpoint next_loop (fuel : nat) (l : lexer) (st : lstate) : next_result :=
                    l_err := None; l_state := l_state l1; l_eof := true |}
         else NFalse l1
       else
-        (* nextRune *)
+        (* nextRune; after a lexer error the reader is ahead of the cursor and can run dry first:
+           ReadRune then fails with io.EOF and Next returns false *)
+        if (l_to l <? l_len l) && (l_rdr l >=? l_len l) then
+          NFalse {| l_input := l_input l; l_len := l_len l; l_rdr := l_rdr l; l_from := l_from l; l_to := l_to l;
+                    l_token := l_token l; l_err := Some "EOF"; l_state := l_state l; l_eof := l_eof l |}
+        else
         let '(c0, s, rdr') :=
           if l_to l >=? l_len l then (EOFr, 0, l_rdr l)
           else let (r, sz) := decode_rune (skipn (Z.to_nat (l_rdr l)) (l_input l)) in
